@@ -1,0 +1,82 @@
+//! Verification hooks. This module only exists when the crate is built with
+//! `--cfg gb_dynarec_verif`; none of it is part of a normal build.
+//!
+//! * bus trace: optional per-thread recorder of bus accesses, fed from
+//!   `mem::memory_read_byte` / `mem::memory_write_byte`
+//! * arena size: optional per-thread override of the translation arena size
+//! * update budget: lets the headless shell terminate after a fixed number of
+//!   `Core::update` calls (GB_DYNAREC_VERIF_MAX_UPDATES)
+
+use std::cell::{Cell, RefCell};
+
+pub const BUS_READ: u8 = 0;
+pub const BUS_WRITE: u8 = 1;
+
+thread_local! {
+  static BUS_TRACE: RefCell<Option<Vec<(u8, u16, u8)>>> = RefCell::new(None);
+  static ARENA_SIZE: Cell<usize> = Cell::new(0);
+  static UPDATE_BUDGET: Cell<Option<u64>> = Cell::new(None);
+  static UPDATE_COUNT: Cell<u64> = Cell::new(0);
+}
+
+#[inline]
+pub fn bus_event(kind: u8, addr: u16, value: u8) {
+  BUS_TRACE.with(|trace| {
+    if let Ok(mut guard) = trace.try_borrow_mut() {
+      if let Some(events) = guard.as_mut() {
+        events.push((kind, addr, value));
+      }
+    }
+  });
+}
+
+/// Begin recording bus events on this thread, discarding any earlier record
+pub fn trace_start() {
+  BUS_TRACE.with(|trace| {
+    *trace.borrow_mut() = Some(Vec::new());
+  });
+}
+
+/// Stop recording and return what was recorded
+pub fn trace_take() -> Vec<(u8, u16, u8)> {
+  BUS_TRACE.with(|trace| trace.borrow_mut().take().unwrap_or_default())
+}
+
+/// Override the size of translation arenas created on this thread (0 = default)
+pub fn set_arena_size(size: usize) {
+  ARENA_SIZE.with(|cell| cell.set(size));
+}
+
+pub fn arena_size() -> Option<usize> {
+  let size = ARENA_SIZE.with(|cell| cell.get());
+  if size == 0 {
+    None
+  } else {
+    Some(size)
+  }
+}
+
+/// Called once per iteration of the headless main loop. Exits the process
+/// with status 0 once GB_DYNAREC_VERIF_MAX_UPDATES iterations have run.
+pub fn budget_tick() {
+  let budget = UPDATE_BUDGET.with(|cell| {
+    if cell.get().is_none() {
+      let parsed = std::env::var("GB_DYNAREC_VERIF_MAX_UPDATES")
+        .ok()
+        .and_then(|text| text.parse::<u64>().ok())
+        .unwrap_or(u64::MAX);
+      cell.set(Some(parsed));
+    }
+    cell.get().unwrap()
+  });
+  let count = UPDATE_COUNT.with(|cell| {
+    let next = cell.get() + 1;
+    cell.set(next);
+    next
+  });
+  if count > budget {
+    use std::io::Write;
+    let _ = std::io::stdout().flush();
+    std::process::exit(0);
+  }
+}
